@@ -102,6 +102,9 @@ def run(ctx):
         ctx.reseed_global(idx)
         h = model.gen_history(rng, ndocs=(5, 70) if rng.random() < 0.6 else (60, 200), boosts="fractional", maxlen=8, burst=rng.choice([0.0, 0.05, 0.15]))
         h["blocklimit"] = rng.choice([2, 2, 4, 16, 128])
+        if idx % 7 == 3 and len(h["commits"]) > 1:
+            h["front"] = "serialmp-optimize"     # see vf.model.build
+            ctx.count("c12.serialmp_optimize_builds")
         wname, wobj = gen_weighting(rng)
         wb = {"history": {"commits": [len(c) for c in h["commits"]], "deletes": len(h["deletes"]),
                           "blocklimit": h["blocklimit"], "storage": h["storage"]}, "case_idx": idx, "weighting": wname}
